@@ -589,7 +589,7 @@ class Recfile(object):
         result = arg
         if isinstance(arg, (tuple, list, numpy.ndarray)):
             # a sequence was entered
-            if isstring(arg[0]):
+            if len(arg) > 0 and isstring(arg[0]):
                 pass
             else:
                 isrows = True
@@ -696,6 +696,10 @@ class Recfile(object):
         # should we do this sort, or assume sorted?
 
         rows2read = numpy.unique(rows2read)
+
+        if rows2read.size == 0:
+            # an empty selection gives an empty result
+            return rows2read
 
         rmin = rows2read[0]
         rmax = rows2read[-1]
